@@ -175,7 +175,49 @@ CONFIG["C19"] = dict(
     trusted_base=_GEN_TRUSTED,
 )
 
-PRE_PROVE = {}
+CONFIG["C13"] = dict(
+    modules=["CanVerif.Props.C13", "CanVerif.Props.C13Code"],
+    level_text="Kernel-checked Lean theorems: Props/C13.lean proves, for every reachable state of every interleaving of any number of threads that each run a well-locked region under one mutex (runner goroutines and application goroutines alike), that a thread in front of a state access holds the lock, a thread in front of a hook call, a transmission or a return does not, and that two threads are never both in front of an access (C13_sound, C13_race_free). Props/C13Code.lean re-checks by decide, on every run, that the three regions of pkg/canrunner/run.go — extracted from the working tree by harness/cmd/extract (go/ast, fail-closed) — are well locked, contain all the accesses the property lists, and marshal the frame after the before-transmit hook. The real RunMessageReceiver/RunMessageTransmitter are driven with step-controlled fakes that check the lock holder at every access and hook call; their call traces are compared with the model.",
+    level_note="Trusted: Lean kernel; the extractor's classification of calls (message methods = state accesses, Lock/Unlock, hook variables, TransmitFrame); sync.Mutex and the Go memory model (lock-protected accesses do not race) are assumed, not modelled below mutex granularity.",
+    level="proof",
+    trivial=r"^$",
+    rule="receiver scripts over known/unknown IDs and transmitter event scripts (requests, toggles); every case executes several critical sections with holder checks",
+    trusted_base=["harness/cmd/extract (go/ast walker, fails closed on unknown statement shapes)", "sync.Mutex / Go memory model assumed"],
+)
+CONFIG["C14"] = dict(
+    level_text="Kernel-checked Lean theorems (Props/C14.lean) over the labelled transition system of the transmitter loop (wake-up channel of capacity 1, flag, any number of toggling applications, event requests by rendezvous, a tick channel that Stop does not drain): for every reachable state of every interleaving, toggles are never lost (parked with no wake-up pending and no toggle in progress implies ticker armed iff enabled), sent + in-flight = accepted requests + consumed ticks, and after a handled disable at most one already-due tick is consumed. The real functions are run against step-controlled fakes: receiver scripts with faults at every position, all transmitter event sequences up to length 3 (quick) / 4 (thorough) over {request, enable, disable, cancel, hook error, transmit error} plus sampled longer ones, real-time cyclic transmission with a 3 ms cycle (frames start after enable, at most one after a handled disable), and canrunner.Run over net.Pipe (returns nil on cancel / the error on a failing hook, connection closed, no goroutine left).",
+    level_note="Partial: the stop/fault clauses and the timed clause are measured, not proved (real time, errgroup, net.Conn). Known finding F2: Run maps any error containing 'closed' to nil.",
+    level="proof",
+    trivial=r"^$",
+    rule="every script runs the real runner function to completion; traces, frame counts, returned error class and leak/close checks are compared",
+    trusted_base=["Go channels, select, context, errgroup, time.Ticker are modelled abstractly (Model/Runner.lean)"],
+)
+
+
+def _extract_runner(work):
+    """regenerate lean/CanVerif/Gen/RunnerProg.lean from /repo's working tree (T2); '' on success"""
+    import subprocess, os
+    here = os.path.dirname(os.path.dirname(os.path.abspath(__file__)))
+    out = os.path.join(here, "lean", "CanVerif", "Gen", "RunnerProg.lean")
+    os.makedirs(os.path.dirname(out), exist_ok=True)
+    try:
+        os.unlink(out)
+    except OSError:
+        pass
+    env = dict(os.environ, GOFLAGS="-mod=mod", GOPROXY="off", GOSUMDB="off", GOTOOLCHAIN="local")
+    r = subprocess.run(["go", "run", "./cmd/extract", "runner", os.environ.get("VERIF_REPO", "/repo"), out],
+                       cwd=os.path.join(here, "harness"), env=env, stdout=subprocess.PIPE, stderr=subprocess.STDOUT, text=True)
+    if r.returncode != 0:
+        # fail closed: leave a file that does not satisfy the obligations, so the proof step reports them broken
+        open(out, "w").write("import CanVerif.Model.Runner\nnamespace CanVerif.Gen\nopen CanVerif\n"
+                             "def receiverBody : List Atom := [.access \"extraction failed\"]\n"
+                             "def transmitBody : List Atom := [.access \"extraction failed\"]\n"
+                             "def setCyclicBody : List Atom := [.access \"extraction failed\"]\nend CanVerif.Gen\n")
+        return "extract runner: " + r.stdout[-500:]
+    return ""
+
+
+PRE_PROVE = {"C13": _extract_runner}
 def _unicode_tie(work, impl):
     """the committed unicode tables equal what the toolchain's unicode package says now"""
     import subprocess, os
